@@ -13,6 +13,7 @@ import (
 	"fmt"
 	"math/rand"
 	"os"
+	"regexp"
 	"sort"
 	"strconv"
 	"strings"
@@ -34,7 +35,52 @@ func c06Search(mgr *Manager, qs string) ([]string, error) {
 func c06InFlight(mgr *Manager, markDef func(string) (string, bool)) (string, error) {
 	v := mgr.GetView()
 	defer v.Release()
-	for _, ti := range mgr.ListTags() {
+	tags := mgr.ListTags()
+	// known finding: inlining the definition of an undecided tag ignores sub-queries - a filter inside a
+	// sub-query loses its sub-query, and a definition with a sub-query of its own is merged (or negated) as if
+	// everything belonged to the main query. Tags whose evaluation needs such an inlining, and tags that refer
+	// to those, are classified apart.
+	undecided := map[string]bool{}
+	for _, ti := range tags {
+		if ti.UncertainCount != 0 {
+			undecided[ti.Name] = true
+		}
+	}
+	tainted := map[string]bool{}
+	hasSub := map[string]bool{}
+	for _, ti := range tags {
+		hasSub[ti.Name] = strings.Contains(ti.Definition, "@")
+	}
+	for _, ti := range tags {
+		// (i) a filter on an undecided tag inside a sub-query
+		for _, m := range c06SubRefRe.FindAllStringSubmatch(ti.Definition, -1) {
+			if undecided[m[1]+"/"+m[2]] {
+				tainted[ti.Name] = true
+			}
+		}
+		// (ii) a filter on an undecided tag whose own definition has a sub-query (its conditions are merged,
+		// and under a negation inverted, as if they belonged to the main query)
+		for _, m := range c06RefRe.FindAllStringSubmatch(ti.Definition, -1) {
+			if n := m[1] + "/" + m[2]; undecided[n] && hasSub[n] {
+				tainted[ti.Name] = true
+			}
+		}
+	}
+	for changed := true; changed; {
+		changed = false
+		for _, ti := range tags {
+			if tainted[ti.Name] {
+				continue
+			}
+			for _, m := range c06RefRe.FindAllStringSubmatch(ti.Definition, -1) {
+				if tainted[m[1]+"/"+m[2]] {
+					tainted[ti.Name] = true
+					changed = true
+				}
+			}
+		}
+	}
+	for _, ti := range tags {
 		typ, sub, _ := strings.Cut(ti.Name, "/")
 		none := false
 		if typ == "mark" {
@@ -69,11 +115,19 @@ func c06InFlight(mgr *Manager, markDef func(string) (string, bool)) (string, err
 		}
 		sort.Strings(has)
 		if a, b, c := strings.Join(byTag, " "), strings.Join(byDef, " "), strings.Join(has, " "); a != b || c != b {
+			if tainted[ti.Name] {
+				return "subquery-tag|" + fmt.Sprintf("%s := %q (%d undecided): search by tag [%s], HasTag [%s], the definition selects [%s]", ti.Name, ti.Definition, ti.UncertainCount, a, c, b), nil
+			}
 			return fmt.Sprintf("%s := %q (%d undecided): search by tag [%s], HasTag [%s], the definition selects [%s]", ti.Name, ti.Definition, ti.UncertainCount, a, c, b), nil
 		}
 	}
 	return "", nil
 }
+
+var (
+	c06SubRefRe = regexp.MustCompile(`@[a-z]+:(tag|service|mark|generated):([a-z]+)`)
+	c06RefRe    = regexp.MustCompile(`(tag|service|mark|generated):([a-z]+)`)
+)
 
 func c06SearchView(v *View, qs string) ([]string, error) {
 	q, err := query.Parse(qs)
@@ -149,6 +203,14 @@ func TestC06FreshStandin(t *testing.T) {
 				}
 			}
 		}
+		// marks name streams that exist at that moment (a mark operation rewrites the definition from the
+		// streams that exist; ids of streams still being imported are outside this harness' model)
+		existing := func() int {
+			if n := int(mgr.Status().StreamCount); n > 0 {
+				return n
+			}
+			return 1
+		}
 		markDef := func(string) (string, bool) {
 			var ids []string
 			for id := range markIDs {
@@ -189,7 +251,7 @@ func TestC06FreshStandin(t *testing.T) {
 				}
 				def := refDef(n)
 				if strings.HasPrefix(n, "mark/") {
-					def = fmt.Sprintf("id:%d", rng.Intn(nStreams))
+					def = fmt.Sprintf("id:%d", rng.Intn(existing()))
 				}
 				if err := mgr.AddTag(n, "red", def); err == nil {
 					defs[n] = def
@@ -206,9 +268,9 @@ func TestC06FreshStandin(t *testing.T) {
 				def := refDef(n)
 				if strings.HasPrefix(n, "mark/") {
 					// a mark is redefined by a new id list
-					def = fmt.Sprintf("id:%d", rng.Intn(nStreams))
+					def = fmt.Sprintf("id:%d", rng.Intn(existing()))
 					if rng.Intn(2) == 0 {
-						def += fmt.Sprintf(",%d", rng.Intn(nStreams))
+						def += fmt.Sprintf(",%d", rng.Intn(existing()))
 					}
 				}
 				if err := mgr.UpdateTag(n, UpdateTagOperationUpdateQuery(def)); err == nil {
@@ -220,7 +282,7 @@ func TestC06FreshStandin(t *testing.T) {
 				}
 			case 3:
 				if _, ok := defs["mark/m"]; ok {
-					ids := []uint64{uint64(rng.Intn(nStreams))}
+					ids := []uint64{uint64(rng.Intn(existing()))}
 					if rng.Intn(2) == 0 {
 						if mgr.UpdateTag("mark/m", UpdateTagOperationMarkAddStream(ids)) == nil {
 							ops = append(ops, fmt.Sprintf("MarkAdd(%v)", ids))
@@ -245,6 +307,8 @@ func TestC06FreshStandin(t *testing.T) {
 			evals++
 			if bad, err := c06InFlight(mgr, markDef); err != nil {
 				fail("search-error", strings.Join(ops, "; "), err.Error())
+			} else if rest, ok := strings.CutPrefix(bad, "subquery-tag|"); ok {
+				fail("in-flight-subquery-tag", strings.Join(ops, "; "), rest)
 			} else if bad != "" {
 				fail("in-flight", strings.Join(ops, "; "), bad)
 			}
